@@ -689,7 +689,7 @@ def classify(op, status, detail, ops_before):
         return ("alloc", "numfiles")
     if "SubstreamsInfo._read" in s or "after: self.substreamsinfo = SubstreamsInfo.retrieve" in s:
         return ("alloc", "substreams-count")
-    if "Header._read|folder_data += decompressor.decompress" in s or \
+    if "Header._read|chunk = decompressor.decompress" in s or "Header._read|folder_data += decompressor.decompress" in s or \
             ("Header._read" in s and "SevenZipDecompressor" in s and "Worker.decompress" not in s):
         return ("hang", "encoded-header-size-exceeds-stream")
     if "Worker.decompress" in s:
@@ -697,6 +697,12 @@ def classify(op, status, detail, ops_before):
     first = sites[0].split("|")[0] if sites else "no-frame"
     return ("unknown", first)
 
+
+# defects found by this check and repaired in the tree since (commits 2499498, 95b882f, 973abee of /repo): an event of
+# one of these shapes is a regression
+REPAIRED = {("hang", "declared-size-exceeds-stream"), ("hang", "stale-decoder"), ("hang", "encoded-header-size-exceeds-stream"),
+            ("hang", "test-digest-declared-packsize"), ("alloc", "numstreams-without-sizes"), ("quadratic", "packpositions"),
+            ("quadratic", "bindpairs"), ("amplify", "names-at-eof")}
 
 WHAT = {
     ("hang", "declared-size-exceeds-stream"): "Worker.decompress never leaves `while out_remaining > 0`: the decoder returns b\"\" with "
@@ -1441,8 +1447,9 @@ def measure(ctx, rep, tier):
         else:
             bad, how = test(v), json.dumps(v)
         if bad:
+            via = "regressed:" + k if (kind, k) in REPAIRED else k
             rep.violation("measured: %s; %s; rows %s" % (WHAT.get((kind, k), k), how, json.dumps(table[k])),
-                          {"kind": "measure", "what": k, "rows": table[k]}, match_keys={"kind": kind, "via": k})
+                          {"kind": "measure", "what": k, "rows": table[k]}, match_keys={"kind": kind, "via": via})
 
 
 def explore(ctx, rep, rng, tier, tmpdir, events):
@@ -1595,6 +1602,9 @@ def explore(ctx, rep, rng, tier, tmpdir, events):
                     done.append(op)
                     continue
             kind, via = classify(op, status, detail, done)
+            what_key = (kind, via)
+            if (kind, via) in REPAIRED:
+                via = "regressed:" + via          # repaired in the tree: never matches an entry of the time before the repair
             if m["origin"] == "valid":
                 via = "valid-archive:" + via      # an unmodified archive under read-mode calls: never a known shape
             stats["events"] += 1
@@ -1602,9 +1612,9 @@ def explore(ctx, rep, rng, tier, tmpdir, events):
             if m["origin"] == "structure":
                 pred_tab["%s -> %s/%s" % (m["pred"], kind, via)] = pred_tab.get("%s -> %s/%s" % (m["pred"], kind, via), 0) + 1
             what = "%s [%s]; call %s of %s on %s (%d bytes, %s) -> %s after %.2f s; frames: %s" % (
-                WHAT.get((kind, via), "unexplained resource event"), "%s/%s" % (kind, via), op, c["ops"], m["name"], m["len"], c["mode"],
+                WHAT.get(what_key, "unexplained resource event"), "%s/%s" % (kind, via), op, c["ops"], m["name"], m["len"], c["mode"],
                 status, secs, (detail.get("sites") if isinstance(detail, dict) else detail)[:4] if detail else detail)
-            if kind == "unknown" or kind == "crash" or via.startswith("valid-archive:"):
+            if kind == "unknown" or kind == "crash" or via.startswith("valid-archive:") or via.startswith("regressed:"):
                 unknown_retry.append((c, m, (kind, via), what))
             elif (kind, via) not in first:
                 first[(kind, via)] = (c, m, what, status)
@@ -1695,7 +1705,7 @@ def replay(d):
         rep = vlib.Report("C05", "quick", 0)
         rep.known = []
         measure({}, rep, "quick")
-        hit = [v for v in rep.violations if v["match_keys"].get("via") == r["what"]]
+        hit = [v for v in rep.violations if v["match_keys"].get("via") in (r["what"], "regressed:" + r["what"])]
         print(json.dumps(rep.extra.get("measurement_verdicts", {}).get(r["what"])))
         return 1 if hit else 0
     if r.get("kind") == "costpart":
